@@ -225,9 +225,11 @@ func replay(raw json.RawMessage) (bool, string, error) {
 // run
 
 type job struct {
-	base *baseTx
-	mut  *mutation
-	fg   *forged
+	base    *baseTx
+	mut     *mutation
+	variant string
+	wire    []byte
+	fg      *forged
 }
 
 type baseStat struct {
@@ -246,6 +248,7 @@ type stats struct {
 	forged, forgedRejected, forgedAccepted, forgedAdmitted   int
 	rejectedBoolBySetup                                      map[string]int
 	samples                                                  map[string]map[string]interface{}
+	viol                                                     map[string]*violRec
 	errKinds                                                 map[string]int
 	byEdit                                                   map[string]int
 	byFamily                                                 map[string]int
@@ -256,7 +259,7 @@ type stats struct {
 }
 
 func newStats() *stats {
-	return &stats{rejectedBoolBySetup: map[string]int{}, samples: map[string]map[string]interface{}{}, acceptedBySeverity: map[string]int{}, errKinds: map[string]int{}, byEdit: map[string]int{}, byFamily: map[string]int{}, fields: map[string]bool{},
+	return &stats{viol: map[string]*violRec{}, rejectedBoolBySetup: map[string]int{}, samples: map[string]map[string]interface{}{}, acceptedBySeverity: map[string]int{}, errKinds: map[string]int{}, byEdit: map[string]int{}, byFamily: map[string]int{}, fields: map[string]bool{},
 		exemptAccepted: map[string]int{}, exemptAdmitted: map[string]int{}, perBase: map[string]*baseStat{}}
 }
 
@@ -267,6 +270,44 @@ func (s *stats) base(n string) *baseStat {
 		s.perBase[n] = b
 	}
 	return b
+}
+
+// violRec: per key the counterexample with the smallest order string (so the
+// kept one does not depend on worker scheduling) and the occurrence count.
+type violRec struct {
+	v     core.Violation
+	order string
+	n     int
+}
+
+func (s *stats) addViol(order string, v core.Violation, n int) {
+	r, ok := s.viol[v.Key]
+	if !ok {
+		s.viol[v.Key] = &violRec{v: v, order: order, n: n}
+		return
+	}
+	r.n += n
+	if order < r.order {
+		r.v, r.order = v, order
+	}
+}
+
+func (w *worker) violate(order string, v core.Violation) { w.st.addViol(order, v, 1) }
+
+// orderOf ranks counterexamples: forged authorisations (an outright theft) first,
+// then smaller base transactions, then by label.
+func orderOf(b *baseTx, label, variant string) string {
+	p := 1
+	if strings.HasPrefix(label, "forged:") {
+		p = 0
+	}
+	// (signature lengths vary from run to run, so size is counted structurally)
+	t := b.Tx
+	size := len(t.TxInputs) + len(t.TxOutputs) + len(t.AuthRequire) + len(t.InitiatorSigns) + 10*len(t.ContractRequests) + len(t.TxOutputsExt)
+	if t.XuperSign != nil {
+		size += 5
+	}
+	return fmt.Sprintf("%d|%04d|%s|%s|%s", p, size, b.Name, label, variant)
 }
 
 // sample keeps, per outcome class, the case with the smallest label (so the
@@ -305,6 +346,9 @@ func (s *stats) merge(o *stats) {
 	}
 	for k, v := range o.samples {
 		s.sample(k, v)
+	}
+	for _, r := range o.viol {
+		s.addViol(r.order, r.v, r.n)
 	}
 	for k, v := range o.errKinds {
 		s.errKinds[k] += v
@@ -363,11 +407,9 @@ func sigEditKey(edit string) string {
 }
 
 type worker struct {
-	rep      *core.Report
-	fx       map[string]*fixture
-	st       *stats
-	seen     *sync.Map
-	variants []string
+	rep *core.Report
+	fx  map[string]*fixture
+	st  *stats
 }
 
 func (w *worker) fixture(setup string) *fixture {
@@ -423,7 +465,7 @@ func (w *worker) submitClause(b *baseTx, label, variant string, wire []byte) {
 			reason = "input_of_marked_tx"
 		}
 	}
-	w.rep.Violation(core.Violation{
+	w.violate(orderOf(b, label, variant), core.Violation{
 		Key:      "c07.submit_admits_tx_refused_by_verifytx." + reason,
 		Summary:  fmt.Sprintf("%s %s (%s): VerifyTx returned (false, nil) and the SubmitTx sequence (which looks at the error only) admitted the transaction to the pool", b.Name, label, variant),
 		Case:     w.mkCase("submit", b, label, variant, wire),
@@ -432,57 +474,63 @@ func (w *worker) submitClause(b *baseTx, label, variant string, wire []byte) {
 	})
 }
 
-func (w *worker) doMutation(b *baseTx, m *mutation, baseWire []byte) {
-	st := w.st
+// prepare applies one mutation in one txid variant and returns the mutant's
+// wire form, or nil when there is nothing to judge (inapplicable, identical to
+// the base, or identical to an earlier mutant of the same base). It runs in the
+// single producer goroutine so that the attribution of duplicates is fixed.
+func prepare(st *stats, seen map[[32]byte]bool, b *baseTx, m *mutation, variant string, baseWire []byte) []byte {
 	bs := st.base(b.Name)
-	for _, variant := range w.variants {
-		st.planned++
-		bs.Planned++
-		t := world.CloneTx(b.Tx)
-		applied := true
-		func() {
-			defer func() {
-				if r := recover(); r != nil {
-					applied = false
-				}
-			}()
-			if m.Family == "schema" {
-				applied = applySchema(t, *m)
-			} else {
-				m.apply(t)
+	st.planned++
+	bs.Planned++
+	t := world.CloneTx(b.Tx)
+	applied := true
+	func() {
+		defer func() {
+			if r := recover(); r != nil {
+				applied = false
 			}
 		}()
-		if !applied {
-			st.inapplicable++
-			continue
+		if m.Family == "schema" {
+			applied = applySchema(t, *m)
+		} else {
+			m.apply(t)
 		}
-		if variant == "txid_recomputed" {
-			id, err := txhash.MakeTransactionID(t)
-			if err != nil {
-				st.inapplicable++
-				continue
-			}
-			t.Txid = id
-		}
-		wire, err := proto.Marshal(t)
+	}()
+	if !applied {
+		st.inapplicable++
+		return nil
+	}
+	if variant == "txid_recomputed" {
+		id, err := txhash.MakeTransactionID(t)
 		if err != nil {
 			st.inapplicable++
-			continue
+			return nil
 		}
-		if bytes.Equal(wire, baseWire) {
-			st.identity++
-			continue
-		}
-		h := sha256.Sum256(append([]byte(b.Name+"\x00"), wire...))
-		if _, dup := w.seen.LoadOrStore(h, true); dup {
-			st.duplicate++
-			continue
-		}
+		t.Txid = id
+	}
+	wire, err := proto.Marshal(t)
+	if err != nil || unwire(wire) == nil {
+		st.inapplicable++
+		return nil
+	}
+	if bytes.Equal(wire, baseWire) {
+		st.identity++
+		return nil
+	}
+	h := sha256.Sum256(append([]byte(b.Name+"\x00"), wire...))
+	if seen[h] {
+		st.duplicate++
+		return nil
+	}
+	seen[h] = true
+	return wire
+}
+
+func (w *worker) doMutation(b *baseTx, m *mutation, variant string, wire []byte) {
+	st := w.st
+	bs := st.base(b.Name)
+	{
 		tx := unwire(wire)
-		if tx == nil {
-			st.inapplicable++
-			continue
-		}
 		f := w.fixture(b.Setup)
 		ok, errS, pan := verifyTx(f, tx)
 		st.evaluated++
@@ -493,9 +541,9 @@ func (w *worker) doMutation(b *baseTx, m *mutation, baseWire []byte) {
 		label := m.Label()
 		if pan {
 			st.panics++
-			w.rep.Violation(core.Violation{Key: "c07.verifytx_panic." + m.Path.Schema(), Summary: fmt.Sprintf("%s %s (%s): VerifyTx panicked: %s", b.Name, label, variant, errS),
+			w.violate(orderOf(b, label, variant), core.Violation{Key: "c07.verifytx_panic." + m.Path.Schema(), Summary: fmt.Sprintf("%s %s (%s): VerifyTx panicked: %s", b.Name, label, variant, errS),
 				Case: w.mkCase("verify", b, label, variant, wire), Expected: "rejection", Observed: errS})
-			continue
+			return
 		}
 		accepted := ok && errS == ""
 		if !accepted {
@@ -516,7 +564,7 @@ func (w *worker) doMutation(b *baseTx, m *mutation, baseWire []byte) {
 				class = "rejected_bool_only." + m.Family
 			}
 			st.sample(class, map[string]interface{}{"outcome": class, "base": b.Name, "mutation": label, "txid": variant, "verifytx_ok": ok, "verifytx_err": errS})
-			continue
+			return
 		}
 		bs.Accepted++
 		if e := exemptFor(b, *m); e != nil {
@@ -529,7 +577,7 @@ func (w *worker) doMutation(b *baseTx, m *mutation, baseWire []byte) {
 				st.exemptAdmitted[e.Name+": "+m.Path.Schema()]++
 			}
 			g.drop()
-			continue
+			return
 		}
 		// covered field / signature: judged against the reference predicate
 		severity, ref, sameDigest := classify(f, b.Tx, tx)
@@ -538,7 +586,7 @@ func (w *worker) doMutation(b *baseTx, m *mutation, baseWire []byte) {
 		case "":
 			st.semanticIdentity++
 			bs.Accepted--
-			continue
+			return
 		case "unauthorised":
 			if m.Family == "schema" {
 				key = "c07.mutant_accepted." + m.SchemaEdit()
@@ -553,7 +601,7 @@ func (w *worker) doMutation(b *baseTx, m *mutation, baseWire []byte) {
 			switch {
 			case ref.NonCanonical:
 				key = "c07.malleability.signature_trailing_bytes"
-			case !ref.AllEntriesValid:
+			case ref.SlotMismatch:
 				key = "c07.malleability.unverified_signature_entry"
 			default:
 				key = "c07.malleability.valid_signatures_reordered_or_duplicated"
@@ -564,7 +612,7 @@ func (w *worker) doMutation(b *baseTx, m *mutation, baseWire []byte) {
 		c := w.mkCase("verify", b, label, variant, wire)
 		c.Class = severity
 		c.Note = fmt.Sprintf("class=%s; reference predicate: authorised=%v %s; covered content unchanged=%v", severity, ref.Authorised, ref.Why, sameDigest)
-		w.rep.Violation(core.Violation{
+		w.violate(orderOf(b, label, variant), core.Violation{
 			Key:      key,
 			Summary:  fmt.Sprintf("%s: mutant %s (%s) accepted by VerifyTx [%s]", b.Name, label, variant, c.Note),
 			Case:     c,
@@ -625,6 +673,7 @@ func (w *worker) doForged(b *baseTx, fg *forged) {
 		return
 	}
 	label := "forged:" + fg.Form + "(" + fg.Key + ")"
+	const variant = "txid_recomputed"
 	f := w.fixture(b.Setup)
 	ok, errS, pan := verifyTx(f, unwire(wire))
 	st.evaluated++
@@ -632,7 +681,7 @@ func (w *worker) doForged(b *baseTx, fg *forged) {
 	st.byEdit["forged:"+fg.Form]++
 	if pan {
 		st.panics++
-		w.rep.Violation(core.Violation{Key: "c07.verifytx_panic.forged." + fg.Form, Summary: fmt.Sprintf("%s %s: VerifyTx panicked: %s", b.Name, label, errS),
+		w.violate(orderOf(b, label, variant), core.Violation{Key: "c07.verifytx_panic.forged." + fg.Form, Summary: fmt.Sprintf("%s %s: VerifyTx panicked: %s", b.Name, label, errS),
 			Case: w.mkCase("verify", b, label, "txid_recomputed", wire)})
 		return
 	}
@@ -647,7 +696,7 @@ func (w *worker) doForged(b *baseTx, fg *forged) {
 		c := w.mkCase("verify", b, label, "txid_recomputed", wire)
 		c.Class = "forged"
 		c.Note = fmt.Sprintf("built with %s's private key only; SubmitTx sequence on a fresh world admitted=%v", fg.Key, adm)
-		w.rep.Violation(core.Violation{
+		w.violate(orderOf(b, label, variant), core.Violation{
 			Key:      forgedKey(fg.Form),
 			Summary:  fmt.Sprintf("%s re-authored by %s (%s), who owns none of the spent outputs and holds none of their owners' keys, is accepted by VerifyTx [%s]", b.Name, fg.Key, fg.Form, c.Note),
 			Case:     c,
@@ -759,7 +808,12 @@ func run(tier core.Tier) *core.Report {
 	}
 
 	// ---- jobs ---------------------------------------------------------------
-	var jobs []job
+	type plan struct {
+		base *baseTx
+		muts []mutation
+		fgs  []forged
+	}
+	var plans []plan
 	fieldSet := map[string]bool{}
 	for _, b := range bases {
 		muts := enumSchema(b.Tx, deep)
@@ -767,13 +821,7 @@ func run(tier core.Tier) *core.Report {
 			fieldSet[f] = true
 		}
 		muts = append(muts, enumSig(b, bases)...)
-		for i := range muts {
-			jobs = append(jobs, job{base: b, mut: &muts[i]})
-		}
-		fgs := enumForged(b)
-		for i := range fgs {
-			jobs = append(jobs, job{base: b, fg: &fgs[i]})
-		}
+		plans = append(plans, plan{base: b, muts: muts, fgs: enumForged(b)})
 	}
 	nw := runtime.NumCPU()
 	if nw > 16 {
@@ -790,7 +838,6 @@ func run(tier core.Tier) *core.Report {
 		}
 		baseWire[b.Name] = bw
 	}
-	var seen sync.Map
 	ch := make(chan job, 256)
 	var wg sync.WaitGroup
 	total := newStats()
@@ -800,13 +847,13 @@ func run(tier core.Tier) *core.Report {
 		wg.Add(1)
 		go func() {
 			defer wg.Done()
-			w := &worker{rep: rep, fx: map[string]*fixture{}, st: newStats(), seen: &seen, variants: variants}
+			w := &worker{rep: rep, fx: map[string]*fixture{}, st: newStats()}
 			for j := range ch {
 				if rep.Expired() {
 					continue
 				}
 				if j.mut != nil {
-					w.doMutation(j.base, j.mut, baseWire[j.base.Name])
+					w.doMutation(j.base, j.mut, j.variant, j.wire)
 				} else {
 					w.doForged(j.base, j.fg)
 				}
@@ -831,11 +878,39 @@ func run(tier core.Tier) *core.Report {
 			mu.Unlock()
 		}()
 	}
-	for _, j := range jobs {
-		ch <- j
+	// the producer: mutants in schema order, both txid variants, de-duplicated
+	pst := newStats()
+	for _, p := range plans {
+		seen := map[[32]byte]bool{}
+		for i := range p.muts {
+			for _, variant := range variants {
+				if rep.Expired() {
+					break
+				}
+				if wire := prepare(pst, seen, p.base, &p.muts[i], variant, baseWire[p.base.Name]); wire != nil {
+					ch <- job{base: p.base, mut: &p.muts[i], variant: variant, wire: wire}
+				}
+			}
+		}
+		for i := range p.fgs {
+			ch <- job{base: p.base, fg: &p.fgs[i]}
+		}
 	}
 	close(ch)
 	wg.Wait()
+	total.merge(pst)
+
+	var vkeys []string
+	for k := range total.viol {
+		vkeys = append(vkeys, k)
+	}
+	sort.Strings(vkeys)
+	for _, k := range vkeys {
+		r := total.viol[k]
+		for i := 0; i < r.n; i++ {
+			rep.Violation(r.v)
+		}
+	}
 
 	// ---- digest clause ------------------------------------------------------
 	dom := digestDomain{vals: []string{"", "A", "AA"}, extVals: []string{"", "A", "AA"}, maxInExt: 1, maxOutExt: 2}
@@ -978,6 +1053,8 @@ func run(tier core.Tier) *core.Report {
 	rep.Assume("ECDSA / multi-signature primitives of github.com/xuperchain/crypto and SHA-256 are trusted (equal digests are read as equal pre-images)")
 	rep.Assume("the fixture world (in-memory kv engine, xkernel contracts only, single-miner genesis) stands for a node; VerifyTx is observed on a world whose pool is empty")
 	rep.Assume("block-path acceptance (verifyDAGTxs) is out of scope here (observed by C13)")
+	rep.Assume("aggregated-signature base forms are created offline with the crypto client's multi-signature step API (nonces derived from key and message); account forms use an account created by the real $acl NewAccount method and confirmed in block 1; the 'marked' setup marks a confirmed transaction through Ledger.UpdateBlockChainData, which no other xupercore code calls")
+	rep.Assume("no exemption was needed for $transient TxOutputsExt entries: they are covered by the digest, their mutants are rejected")
 	return rep
 }
 
